@@ -8,5 +8,7 @@ CONSTANTS
   AllowLeave = TRUE
   AllowRelease = TRUE
   TsFix = TRUE
+  Late = {}
+  NeedKnown = FALSE
 INVARIANTS SingleNewestOwner
 CHECK_DEADLOCK FALSE
